@@ -89,14 +89,14 @@ DisplayOf(d0) == LET d == PadLeft(Strip(d0), 19)
                      n == Len(d)
                  IN ToChars(SubSeq(d, 1, n - 18)) \o <<DOT>> \o ToChars(SubSeq(d, n - 17, n))
 
-\* What C16 demands of a printed string s for amount d: it is a plain decimal string
-\* (digits, optionally a point and at most 18 further digits) whose value is d.
-\* (Trailing zeros / the exact number of printed fraction digits are presentation, not value.)
+\* What C16 demands of a printed string s for amount d: it is a plain decimal string -- the whole tokens, a
+\* point, and ("with 18 fractional digits") exactly 18 further digits -- whose value is d.
 DisplayOK(s, d) ==
     LET i == FirstDot(s)
         ip == IF i = 0 THEN s ELSE SubSeq(s, 1, i - 1)
         fp == IF i = 0 THEN <<>> ELSE SubSeq(s, i + 1, Len(s))
-    IN /\ ip # <<>> /\ AllDigits(ip) /\ AllDigits(fp) /\ Len(fp) <= 18
+    IN /\ ip # <<>> /\ AllDigits(ip) /\ AllDigits(fp)
+       /\ i # 0 /\ Len(fp) = 18
        /\ Scaled(ToDigits(ip), ToDigits(fp)) = Strip(d)
 
 \* ------------------------------------------------------------- Parse
